@@ -3,6 +3,7 @@ import PfModel.Model.Errors
 import PfModel.Model.ErrorsAsync
 import PfModel.Model.ErrorsStore
 import PfModel.Model.ErrorsKinds
+import PfModel.Model.ErrorsProto
 /-! Driver for C13 (`call.fail`, `map.fail`): the failure models of `PfModel/Model/Errors.lean`. -/
 open Lean PF PF.Drv PF.Errors
 
@@ -33,6 +34,38 @@ def getBaseClasses (j : Json) : R (List String) := do
     let b := (← optF (fun v => match v with | Json.bool b => pure b | _ => .error "base: bool expected") x "base").getD false
     return (← strF x "cls", b)) j
   return (entries.filter (·.2)).map (·.1)
+
+/-- the classes the oracle marks `"stop": true` (deriving from `StopIteration`) -/
+def getStopClasses (j : Json) : R (List String) := do
+  let entries ← asList (fun e => do
+    let x ← fld e "exn"
+    let b := (← optF (fun v => match v with | Json.bool b => pure b | _ => .error "stop: bool expected") x "stop").getD false
+    return (← strF x "cls", b)) j
+  return (entries.filter (·.2)).map (·.1)
+
+/-- the flag `k` (`"base"`, `"stop"`) of the exceptions the renaming table maps to -/
+def getRenameFlag (a : Json) (k : String) : R (List String) := do
+  match ← optF (asList (asPair pure pure)) a "rename" with
+  | none => return []
+  | some tbl =>
+    let entries ← tbl.mapM fun ((_, x) : Json × Json) => do
+      let b := (← optF (fun v => match v with | Json.bool b => pure b | _ => .error s!"{k}: bool expected") x k).getD false
+      return (← strF x "cls", b)
+    return (entries.filter (·.2)).map (·.1)
+
+def exnKey (x : Exn) : String := (putExn x).compress
+
+/-- `"rename": [[from, to], …]`: the renaming `h` of `mapOracle` as a finite table (identity elsewhere) -/
+def getRename (a : Json) : R (Option (Exn → Exn)) := do
+  match ← optF (asList (asPair getExn getExn)) a "rename" with
+  | none => return none
+  | some tbl =>
+    let keyed := tbl.map fun (f, t) => (exnKey f, t)
+    return some fun x => match keyed.find? (·.1 = exnKey x) with | some (_, t) => t | none => x
+
+def putAwaited (stopCls : List String) (x : Exn) : Json :=
+  let a := awaitExn (fun x => stopCls.contains x.cls) x
+  jObj [("exn", putExn a.exn), ("cause", jOpt putExn a.cause)]
 
 def putSnap (s : Snapshot) : Json := jObj [("fname", jStr s.fname), ("exn", putExn s.exn), ("kwargs", putKw s.kwargs)]
 
@@ -90,8 +123,10 @@ def handle (m : String) (a : Json) : R Json := do
     let fs ← listF getFunc a "funcs"
     let kw ← getKw (← fld a "kw")
     let req ← getReq (← fld a "out")
-    let fails ← getOracle (← fld a "fail")
-    let baseCls ← getBaseClasses (← fld a "fail")
+    let fails0 ← getOracle (← fld a "fail")
+    -- `"rename"`: the user functions raise `h x` where the listed oracle raises `x` (`mapOracle`, `C13_class_parametric_call`)
+    let fails := match ← getRename a with | some h => mapOracle h fails0 | none => fails0
+    let baseCls := (← getBaseClasses (← fld a "fail")) ++ (← getRenameFlag a "base")
     match Call.runTopE fails fs kw req with
     | .refused e => return putPErr e
     | .value o => return jObj [("value", putVal o.value), ("calls", jList jStr o.calls)]
@@ -102,8 +137,11 @@ def handle (m : String) (a : Json) : R Json := do
     let fs ← listF getMFunc a "funcs"
     let inputs ← getKw (← fld a "inputs")
     let internal := (← optF (asList (asPair asStr (asList asNat))) a "internal").getD []
-    let fails ← getOracle (← fld a "fail")
-    let baseCls ← getBaseClasses (← fld a "fail")
+    let fails0 ← getOracle (← fld a "fail")
+    -- `"rename"`: the user functions raise `h x` where the listed oracle raises `x` (`mapOracle`, `C13_class_parametric`)
+    let fails := match ← getRename a with | some h => mapOracle h fails0 | none => fails0
+    let baseCls := (← getBaseClasses (← fld a "fail")) ++ (← getRenameFlag a "base")
+    let stopCls := (← getStopClasses (← fld a "fail")) ++ (← getRenameFlag a "stop")
     let modeS ← strF a "mode"
     let mode ← match modeS with
       | "seq" => pure Mode.seq
@@ -159,7 +197,9 @@ def handle (m : String) (a : Json) : R Json := do
         | none => Json.null
       return jObj ([("raised", Json.bool true), ("candidates", cands), ("resume", resume), ("gen", jNat g), ("log", jList putTask log), ("stored", putKw stored),
                     ("gens", jList (jList jStr) ((Map.generations fs).map fun g => g.map (·.name))),
-                    ("pipelineSnap", jOpt putSnap snapP), ("spec", spec)] ++ putAnnotated baseCls r ++ putRaised fails r)
+                    ("pipelineSnap", jOpt putSnap snapP), ("spec", spec)] ++
+                   -- `map_async`: what `await` hands to the caller (`awaitExn`, `C13_await_kinds`)
+                   (if modeS = "async" then [("awaited", putAwaited stopCls r.exn)] else []) ++ putAnnotated baseCls r ++ putRaised fails r)
   | _ => .error s!"unknown entry {m}"
 
 def main : IO Unit := loop handle
